@@ -84,3 +84,8 @@ def _rotation_from_matrix(m):
     from scipy.spatial.transform import Rotation
     m = np.array(m, dtype=np.float64)
     return Rotation.from_matrix(m)
+
+
+def _Backend():
+    from acryo.backend import Backend
+    return Backend()
